@@ -71,13 +71,13 @@ type obsState struct {
 	cancel  context.CancelFunc
 
 	started, dialed, first, synced, done, pausing, ended bool
-	startedAt, pauseEnd                          time.Time
-	err                                          error
-	seen                                         map[string]bool
-	nextPause, pausesEntered, pauseByBound       int
-	dupUpdates                                   int
-	maxTick                                      int64
-	dupAtomic, wildBeforeSync, whileDown         bool
+	startedAt, pauseEnd                                  time.Time
+	err                                                  error
+	seen                                                 map[string]bool
+	nextPause, pausesEntered, pauseByBound               int
+	dupUpdates                                           int
+	maxTick                                              int64
+	dupAtomic, wildBeforeSync, whileDown                 bool
 }
 
 // reached is called under hub.mu.
